@@ -41,15 +41,59 @@ type c23Op struct {
 }
 
 type c23Env struct {
-	encs  *encoder.Encoders
-	enc   encoder.Encoder
-	nodes [3]base.Address
-	ops   []c23Op
-	byfh  map[string]int
+	encs    *encoder.Encoders
+	enc     encoder.Encoder
+	nodes   [3]base.Address
+	ops     []c23Op
+	byfh    map[string]int
+	bases   []int64 // the range shapes [s,e] within [1..4] are shifted by each base (start/end of c23Op are absolute)
+	heights []int64 // every queried / removed height: base+0 .. base+5 of every base, ascending
+}
+
+// c23Bases is the height alphabet: the same small range shapes shifted so that
+// the stored end heights and the queried heights straddle the byte boundaries of
+// the 8-byte big-endian end height inside the record key (2^8, 2*2^8, 2^16, 2^24,
+// 2^31, 2^32 and, thorough, 2^40, 2^48, 2^56), plus the decimal digit boundaries
+// 9/10 and 99/100 (thorough 999/1000, 9999/10000) for anything that orders heights
+// by their text.
+func c23Bases(thorough bool) []int64 {
+	bs := []int64{0, 7, 97}
+
+	for b := int64(250); b <= 258; b++ {
+		bs = append(bs, b)
+	}
+
+	for b := int64(509); b <= 513; b++ {
+		bs = append(bs, b)
+	}
+
+	for b := int64(65533); b <= 65537; b++ {
+		bs = append(bs, b)
+	}
+
+	bs = append(bs, 1<<24-3, 1<<31-3, 1<<32-3)
+
+	if thorough {
+		bs = append(bs, 997, 9997, 1<<24-2, 1<<32-2, 1<<40-3, 1<<48-3, 1<<56-3)
+	}
+
+	return bs
 }
 
 func c23NewEnv(t *testing.T) *c23Env {
-	env := &c23Env{byfh: map[string]int{}}
+	return c23NewEnvAt(t, 0)
+}
+
+func c23NewEnvAt(t *testing.T, bases ...int64) *c23Env {
+	env := &c23Env{byfh: map[string]int{}, bases: bases}
+
+	for _, b := range bases {
+		for h := int64(0); h <= 5; h++ {
+			env.heights = append(env.heights, b+h)
+		}
+	}
+
+	sort.Slice(env.heights, func(i, j int) bool { return env.heights[i] < env.heights[j] })
 	env.enc = jsonenc.NewEncoder()
 	env.encs = encoder.NewEncoders(env.enc, env.enc)
 
@@ -76,24 +120,31 @@ func c23NewEnv(t *testing.T) *c23Env {
 		env.nodes[i] = base.NewStringAddress(fmt.Sprintf("c23-node-n%d", i+1))
 	}
 
-	for n := 0; n < 2; n++ {
-		for s := int64(1); s <= 4; s++ {
-			for e := s; e <= 4; e++ {
-				fact := isaac.NewSuffrageExpelFact(env.nodes[n], base.Height(s), base.Height(e), "c23")
-				op := isaac.NewSuffrageExpelOperation(fact)
+	for bi, b := range bases {
+		for n := 0; n < 2; n++ {
+			for s := int64(1); s <= 4; s++ {
+				for e := s; e <= 4; e++ {
+					fact := isaac.NewSuffrageExpelFact(env.nodes[n], base.Height(b+s), base.Height(b+e), "c23")
+					op := isaac.NewSuffrageExpelOperation(fact)
 
-				if err := op.NodeSign(priv, nid, signer); err != nil {
-					t.Fatal(err)
+					if err := op.NodeSign(priv, nid, signer); err != nil {
+						t.Fatal(err)
+					}
+
+					if err := op.IsValid(nid); err != nil {
+						t.Fatal(err)
+					}
+
+					name := fmt.Sprintf("n%d:%d-%d", n+1, s, e) // relative to the base
+					if len(bases) > 1 {
+						name += fmt.Sprintf("@%d", bi)
+					}
+
+					env.byfh[fact.Hash().String()] = len(env.ops)
+					env.ops = append(env.ops, c23Op{
+						name: name, node: n, start: b + s, end: b + e, op: op, facthash: fact.Hash().String(),
+					})
 				}
-
-				if err := op.IsValid(nid); err != nil {
-					t.Fatal(err)
-				}
-
-				env.byfh[fact.Hash().String()] = len(env.ops)
-				env.ops = append(env.ops, c23Op{
-					name: fmt.Sprintf("n%d:%d-%d", n+1, s, e), node: n, start: s, end: e, op: op, facthash: fact.Hash().String(),
-				})
 			}
 		}
 	}
@@ -185,7 +236,7 @@ type c23Check struct {
 func (c *c23Check) lookups(db *TempPool, set []int, idprefix string, replay any) {
 	r, env := c.r, c.env
 
-	for h := int64(0); h <= 5; h++ {
+	for hi, h := range env.heights {
 		var covering []int
 		var shadow bool // a non-covering record whose end is not below h (it is met before/among the covering ones in the scan)
 
@@ -203,7 +254,7 @@ func (c *c23Check) lookups(db *TempPool, set []int, idprefix string, replay any)
 		nontrivial := len(covering) > 0 && len(covering) < len(set)
 
 		// ---- T
-		if id := fmt.Sprintf("%s/h%d/T", idprefix, h); r.Want(id) {
+		if id := fmt.Sprintf("%s/h%d/T", idprefix, hi); r.Want(id) {
 			var visited []int
 			var unknown int
 
@@ -250,7 +301,7 @@ func (c *c23Check) lookups(db *TempPool, set []int, idprefix string, replay any)
 
 		// ---- L
 		for n := 0; n < 3; n++ {
-			id := fmt.Sprintf("%s/h%d/L%d", idprefix, h, n+1)
+			id := fmt.Sprintf("%s/h%d/L%d", idprefix, hi, n+1)
 			if !r.Want(id) {
 				continue
 			}
@@ -318,150 +369,223 @@ func TestVerifC23(t *testing.T) {
 	r := vlib.Start("C23")
 	defer r.Finish()
 
-	env := c23NewEnv(t)
-	c := &c23Check{r: r, env: env}
+	c23RunSets(t, r, false)
+}
 
+// c23RunSets: bounds=false is the unshifted enumeration (base 0), bounds=true the
+// same enumeration at every other base of the height alphabet (unit TestVerifC23Bounds).
+func c23RunSets(t *testing.T, r *vlib.Run, bounds bool) bool {
 	maxset := vlib.Pick(r, 3, 4)
 	orders := vlib.Pick(r, []string{"fwd"}, []string{"fwd", "rev"})
 
-	if _, replaying := r.Replaying(); replaying {
+	// the height alphabet: at the shifted bases quick stores every set of at most 2 of 6 shapes, thorough of at most 3 of all 20
+	bmaxset := vlib.Pick(r, 2, 3)
+	bshapes := vlib.Pick(r, []string{"n1:1-2", "n1:2-4", "n1:3-3", "n1:4-4", "n2:1-2", "n2:2-3"}, nil)
+	borders := []string{"fwd"}
+
+	_, replaying := r.Replaying()
+	if replaying {
 		maxset, orders = 4, []string{"fwd", "rev"} // the recorded case may come from the thorough tier
+		bmaxset, bshapes, borders = 4, nil, orders
 	}
 
-	r.Set("operations", len(env.ops))
-	r.Set("max_set_size", maxset)
-	r.Set("heights", "0..5")
-	r.Set("insertion_orders", orders)
-	r.Rule("every set of at most K of the 20 expel operations (nodes {n1,n2} x ranges [s,e] in [1..4]) is stored in a fresh real TempPool (in ascending and, thorough, descending insertion order); " +
-		"at every height 0..5: traverse, lookup of n1/n2/unknown n3, and remove-by-height on a fresh copy followed by traverse/lookup at every height on the rest; " +
-		"each (set, order) is a state, each call on the real pool a transition; non-trivial = a traverse/lookup where the stored set holds a covering and a non-covering record")
-	r.Assume("leveldb in-memory storage behaves like the on-disk one for single-process sequential use; key order among records with the same end height is the fact-hash order (fixed by the fixed nodes/ranges)")
+	bases := []int64{0}
+	if bounds {
+		bases = c23Bases(r.Thorough() || replaying)[1:]
+	}
 
-	// enumerate sets (combinations, lexicographic) with a running index for sharding
-	n := len(env.ops)
-	var idx int
-	var rec func(start int, cur []int)
+	if !bounds {
+		r.Set("max_set_size", maxset)
+		r.Set("heights", "0..5")
+		r.Set("insertion_orders", orders)
+		r.Rule("every set of at most K of the 20 expel operations (nodes {n1,n2} x ranges [s,e] in [1..4]) is stored in a fresh real TempPool (in ascending and, thorough, descending insertion order); " +
+			"at every height 0..5: traverse, lookup of n1/n2/unknown n3, and remove-by-height on a fresh copy followed by traverse/lookup at every height on the rest; " +
+			"each (set, order) is a state, each call on the real pool a transition; non-trivial = a traverse/lookup where the stored set holds a covering and a non-covering record")
+		r.Assume("leveldb in-memory storage behaves like the on-disk one for single-process sequential use; key order among records with the same end height is the fact-hash order (fixed by the fixed nodes/ranges)")
+	} else {
+		r.Set("height_bases", bases)
+		r.Set("boundary_max_set_size", bmaxset)
+	}
+
+	var idx, btotal int // idx: running index over (base, set) for sharding
 
 	stop := false
 
-	visit := func(set []int) {
-		idx++
-		if !r.Mine(idx) || stop {
-			return
+	for _, b := range bases {
+		if stop {
+			break
 		}
 
-		if r.Expired() {
-			stop = true
+		env := c23NewEnvAt(t, b)
+		c := &c23Check{r: r, env: env}
 
-			return
-		}
+		idprefix, maxset, orders, shapes := "", maxset, orders, []string(nil)
+		if b != 0 {
+			idprefix, maxset, orders, shapes = fmt.Sprintf("b%d/", b), bmaxset, borders, bshapes
 
-		setid := "{" + env.names(set) + "}"
-
-		for _, ord := range orders {
-			prefix := setid + "/" + ord
-			if !r.WantPrefix(prefix + "/") {
+			if !r.WantPrefix(idprefix) {
 				continue
 			}
+		}
 
-			ins := append([]int{}, set...)
-			if ord == "rev" {
-				for i, j := 0, len(ins)-1; i < j; i, j = i+1, j-1 {
-					ins[i], ins[j] = ins[j], ins[i]
+		// candidate operations
+		var cand []int
+
+		for i := range env.ops {
+			ok := len(shapes) < 1
+
+			for _, n := range shapes {
+				if env.ops[i].name == n {
+					ok = true
 				}
 			}
 
-			replay := map[string]any{"set": env.names(set), "order": ord}
+			if ok {
+				cand = append(cand, i)
+			}
+		}
 
-			r.State(prefix)
+		if b == 0 {
+			r.Set("operations", len(cand))
+		} else {
+			r.Set("boundary_operations", len(cand))
+		}
 
-			// stored content must be the set
-			db := env.newPool(ins)
-			r.Trace()
+		var nsets int
 
-			if got := fmt.Sprint(c23Sorted(env.stored(db))); got != fmt.Sprint(c23Sorted(set)) && r.Want(prefix+"/stored") {
-				r.Violation(prefix+"/stored", map[string]any{"kind": "set-lost-or-duplicated"},
-					fmt.Sprintf("stored {%s}, leveldb holds %s", env.names(set), got), replay)
+		visit := func(set []int) {
+			idx++
+			nsets++
+
+			if !r.Mine(idx) || stop {
+				return
 			}
 
-			c.lookups(db, set, prefix, replay)
+			if r.Expired() {
+				stop = true
 
-			if err := db.DeepClose(); err != nil {
-				panic(err)
+				return
 			}
 
-			// remove by height, on a fresh copy per height
-			for h := int64(0); h <= 5; h++ {
-				rprefix := fmt.Sprintf("%s/R%d", prefix, h)
-				if !r.WantPrefix(rprefix) {
+			setid := idprefix + "{" + env.names(set) + "}"
+
+			for _, ord := range orders {
+				prefix := setid + "/" + ord
+				if !r.WantPrefix(prefix + "/") {
 					continue
 				}
 
+				ins := append([]int{}, set...)
+				if ord == "rev" {
+					for i, j := 0, len(ins)-1; i < j; i, j = i+1, j-1 {
+						ins[i], ins[j] = ins[j], ins[i]
+					}
+				}
+
+				replay := map[string]any{"set": env.names(set), "order": ord, "base": b}
+
+				r.State(prefix)
+
+				// stored content must be the set
 				db := env.newPool(ins)
 				r.Trace()
 
-				var left []int
-				for _, i := range set {
-					if env.ops[i].end > h {
-						left = append(left, i)
-					}
+				if got := fmt.Sprint(c23Sorted(env.stored(db))); got != fmt.Sprint(c23Sorted(set)) && r.Want(prefix+"/stored") {
+					r.Violation(prefix+"/stored", map[string]any{"kind": "set-lost-or-duplicated"},
+						fmt.Sprintf("stored {%s}, leveldb holds %s", env.names(set), got), replay)
 				}
 
-				err := db.RemoveSuffrageExpelOperationsByHeight(base.Height(h))
-
-				r.Eval()
-				r.Transition()
-				r.Outcome(fmt.Sprintf("remove:removed=%d", len(set)-len(left)))
-
-				if len(left) > 0 && len(left) < len(set) {
-					r.Nontrivial(rprefix)
-				}
-
-				got := env.stored(db)
-
-				if r.Want(rprefix) {
-					switch {
-					case err != nil:
-						r.Violation(rprefix, map[string]any{"kind": "error", "call": "RemoveSuffrageExpelOperationsByHeight"}, err.Error(), replay)
-					case fmt.Sprint(c23Sorted(got)) != fmt.Sprint(c23Sorted(left)):
-						what := "removed-not-ended"
-						if len(got) > len(left) {
-							what = "kept-ended"
-						}
-
-						r.Violation(rprefix, map[string]any{"kind": "remove-by-height-wrong", "what": what},
-							fmt.Sprintf("stored {%s}, remove by height %d left {%s}, expected {%s} (end > height)",
-								env.names(set), h, env.names(got), env.names(left)), replay)
-					}
-				}
-
-				// history: lookups after the removal see exactly what is left
-				c.lookups(db, c23Sorted(got), rprefix, replay)
+				c.lookups(db, set, prefix, replay)
 
 				if err := db.DeepClose(); err != nil {
 					panic(err)
 				}
+
+				// remove by height, on a fresh copy per height
+				for hi, h := range env.heights {
+					rprefix := fmt.Sprintf("%s/R%d", prefix, hi)
+					if !r.WantPrefix(rprefix) {
+						continue
+					}
+
+					db := env.newPool(ins)
+					r.Trace()
+
+					var left []int
+					for _, i := range set {
+						if env.ops[i].end > h {
+							left = append(left, i)
+						}
+					}
+
+					err := db.RemoveSuffrageExpelOperationsByHeight(base.Height(h))
+
+					r.Eval()
+					r.Transition()
+					r.Outcome(fmt.Sprintf("remove:removed=%d", len(set)-len(left)))
+
+					if len(left) > 0 && len(left) < len(set) {
+						r.Nontrivial(rprefix)
+					}
+
+					got := env.stored(db)
+
+					if r.Want(rprefix) {
+						switch {
+						case err != nil:
+							r.Violation(rprefix, map[string]any{"kind": "error", "call": "RemoveSuffrageExpelOperationsByHeight"}, err.Error(), replay)
+						case fmt.Sprint(c23Sorted(got)) != fmt.Sprint(c23Sorted(left)):
+							what := "removed-not-ended"
+							if len(got) > len(left) {
+								what = "kept-ended"
+							}
+
+							r.Violation(rprefix, map[string]any{"kind": "remove-by-height-wrong", "what": what},
+								fmt.Sprintf("base %d: stored {%s}, remove by height %d left {%s}, expected {%s} (end > height)",
+									b, env.names(set), h, env.names(got), env.names(left)), replay)
+						}
+					}
+
+					// history: lookups after the removal see exactly what is left
+					c.lookups(db, c23Sorted(got), rprefix, replay)
+
+					if err := db.DeepClose(); err != nil {
+						panic(err)
+					}
+				}
+			}
+
+			if b == 0 && idx <= 60 && len(set) == 2 {
+				r.Sample(map[string]any{"set": env.names(set), "checked": "T,L1..L3 at h=0..5; R0..R5 then T,L at h=0..5"})
 			}
 		}
 
-		if idx <= 60 && len(set) == 2 {
-			r.Sample(map[string]any{"set": env.names(set), "checked": "T,L1..L3 at h=0..5; R0..R5 then T,L at h=0..5"})
+		var rec func(start int, cur []int)
+
+		rec = func(start int, cur []int) {
+			visit(cur)
+
+			if len(cur) == maxset {
+				return
+			}
+
+			for i := start; i < len(cand); i++ {
+				rec(i+1, append(append([]int{}, cur...), cand[i]))
+			}
+		}
+
+		rec(0, nil)
+
+		if b == 0 {
+			r.Set("sets_enumerated", nsets)
+		} else {
+			btotal += nsets
 		}
 	}
 
-	rec = func(start int, cur []int) {
-		visit(cur)
-
-		if len(cur) == maxset {
-			return
-		}
-
-		for i := start; i < n; i++ {
-			rec(i+1, append(append([]int{}, cur...), i))
-		}
+	if bounds {
+		r.Set("boundary_sets_enumerated", btotal)
 	}
 
-	rec(0, nil)
-
-	r.Set("sets_enumerated", idx)
+	return !stop
 }
